@@ -75,7 +75,7 @@ def plain_side_projections():
     return [i for i, d in enumerate(decorations()) if d[0] == "project_side" and not d[3] and not d[4]]
 
 
-BASES = ["boxes", "box_loft", "cylinder", "hemi_box", "slit"]
+BASES = ["boxes", "box_loft", "cylinder", "hemi_box", "slit", "hemi_copy"]
 
 
 def target(d):
@@ -224,6 +224,9 @@ def build_base(base):
         ents.append(c)
     else:
         h = cb.Hemisphere([3, 0, 0], [4, 0, 0], [0, 0, 1])
+        if base == "hemi_copy":
+            # only a moved COPY of the sphere shape is in the mesh: everything it projects to must be its own geometry
+            h = h.copy().translate([0.5, 0.3, -0.2])
         for op in h.operations:
             for a in range(3):
                 op.chop(a, count=2)
@@ -455,7 +458,7 @@ def run_case(case):
             bad("cell-zone", f"operation {o}: zone {blk['zone']!r}, declared {decl.zone[o]!r}")
         if case["base"].startswith("boxes_"):
             pass
-        elif case["base"] in ("boxes", "slit") or (case["base"] == "box_loft" and o == 0) or (case["base"] == "hemi_box" and o == len(ops) - 1):
+        elif case["base"] in ("boxes", "slit") or (case["base"] == "box_loft" and o == 0) or (case["base"] in ("hemi_box", "hemi_copy") and o == len(ops) - 1):
             if blk["counts"] != [2, 3, 4] and case["base"] != "box_loft":
                 bad("hex-counts", f"operation {o}: {blk['counts']}, chopped (2 3 4)")
         # counts and gradings: the model holds one grading per edge of the block (between two of its corners, in
@@ -574,7 +577,7 @@ def run_case(case):
     for lab in used_labels:
         if lab.startswith("sphere_") and lab not in d["geometry"]:
             bad("built-in-geometry-undefined", f"{lab} is projected to but not defined")
-    if case["base"] == "hemi_box" and 0 not in decl.deleted and not auto:
+    if case["base"] in ("hemi_box", "hemi_copy") and 0 not in decl.deleted and not auto:
         bad("built-in-geometry-undefined", "hemisphere geometry missing")
     # VTK
     try:
